@@ -33,3 +33,21 @@ CHECKS["C17"] = {
                     "completeness for whole programs follows by induction on the tree from the per-kind step lemma"],
     "outside": ["node kinds are enumerated by forking, not by the solver; the solver's part is the early-stop index"],
 }
+
+CHECKS["C12"] = {
+    "runs": [
+        R("./env", {"fn": r"^ZZ_C12_(values_step|path_step|external_step|copy_step)$"},
+                   {"fn": r"^ZZ_C12_(values_step|path_step|external_step|copy_step|types_step)$"}),
+        R("./env", {"fn": r"^ZZ_C12_history3$"}, thorough_only=True),
+    ],
+    "expect_asserts": [r"C12\.post-state", r"C12\.no-panic/GetEnvFromPath", r"C12\.copy-independent/copy", r"C12\.result/Set"],
+    "bounds": {"scopes": "tree of <= 3 scopes in 6 shapes (chain, siblings, module chain, path through a non-module)",
+               "names": "pool {a, b} per table; arguments a, b, a.b, n (unbound), int64, string",
+               "values": "symbolic int64 payloads (no bound), modules", "tables": "each values/types map nil or any subset of the pool",
+               "operations": "one call of every exported Env method from the arbitrary state (inductive step); thorough adds all 3-call histories"},
+    "stubs": ["sync.RWMutex: engine model", "fmt.Errorf/Sprintf: native formatting"],
+    "assumptions": ["representation invariant: maps may be nil, parent links form a tree, tables hold no dotted names",
+                    "bindings are int64 values or modules (other value classes are covered by C11/C20)"],
+    "outside": ["the space is enumerated by forking (shapes x table contents x operation x target x name); payloads are symbolic but the solver is not needed to decide these obligations",
+                "external lookups that themselves mutate the environment"],
+}
